@@ -314,8 +314,10 @@ Decide(p, t, w1, adv) ==
                      ELSE gh
             /\ UNCHANGED <<fs, tmp, clock, runid, locks, cmd, hist, ran, ncmds, pool>>
     IN
-    IF sb.v = "failed" THEN ErrorExit(p, 32, sb.w)
-    ELSE IF sb.v = "cycle" THEN ErrorExit(p, 208, sb.w)
+    \* a target that already failed in this run (32) or that depends on itself (208) fails
+    \* like a job: the error is delivered through job_futures, running jobs are waited for
+    IF sb.v = "failed" THEN Imm(sb.w, 32, "failed")
+    ELSE IF sb.v = "cycle" THEN Imm(sb.w, 208, "cycle")
     ELSE IF sb.v = "clean" THEN Imm(sb.w, 0, "clean")
     ELSE IF sb.v = "dirty" \/ P.oob THEN
         LET ss == StartSelf(sb.w, e, t, sf, Cands[t]) IN
@@ -467,7 +469,9 @@ UnlDone(p, j) ==
     /\ P.kind = "redo" /\ j \in P.jobs /\ j.k \in {"unl", "imm"} /\ j.st = "exited"
     /\ locks' = IF j.k = "unl" /\ locks[j.t] = p THEN [locks EXCEPT ![j.t] = NoPid] ELSE locks
     /\ procs' = [procs EXCEPT ![p].jobs = @ \ {j},
-                              ![p].err = IF j.rv # 0 THEN 1 ELSE @]
+                              ![p].err = IF j.rv = 0 THEN @
+                                         ELSE IF j.k = "imm" /\ j.rv \in {32, 208} THEN j.rv   \* the error itself
+                                         ELSE 1]
     /\ UNCHANGED <<fs, tmp, clock, w, runid, cmd, hist, ran, ncmds, pool, gh>>
 
 \* ensure_token: take a free token from the pool when about to consider a target
